@@ -66,7 +66,7 @@ func profiles(prop string) []hist.Profile {
 	case "C05":
 		return []hist.Profile{
 			{Name: "order", Ops: 130, Topics: 1, Subs: 3, POrdered: 0.9, PFilter: 0.2, PDL: 0, PRetry: 0.7,
-				Retentions: []time.Duration{0, 0, 10 * min}, Keys: []string{"", "k1", "k1", "k2", "k3"},
+				Retentions: []time.Duration{0, 0, 10 * min}, Keys: []string{"", "k1", "k1", "k2", " k2", "k2 ", " ", "\tk1"}, // an ordering key is an opaque string: blanks are part of it
 				W: weights(map[string]int{"publish": 30, "pull": 25, "pull-due": 10, "ack": 20, "modack": 8, "job": 10, "seek-time": 0, "seek-snapshot": 0, "snapshot": 0, "sweep": 0, "update-sub": 0, "delete-topic": 0, "stream": 4})},
 			{Name: "order-dl", Ops: 130, Topics: 2, Subs: 3, POrdered: 0.8, PFilter: 0.1, PDL: 0.5, PRetry: 0.8,
 				Keys: []string{"", "k1", "k1", "k2"}, MaxAttempt: []int32{1, 2, 3},
